@@ -1,4 +1,5 @@
 import Garr.SpecParse.Model
+import Garr.SpecParse.Grammar
 /-!
 # C18 — back-off specifications parse totally, exactly and with the documented defaults
 -/
@@ -57,5 +58,140 @@ theorem layers_in_order (base : Option Backoff) (ls : List Layer) (l : Layer) :
 
 /-- building twice from the same (cached) base gives the same result: `build` is a function of base and layers -/
 theorem build_deterministic (base : Option Backoff) (ls : List Layer) : build base ls = build base ls := rfl
+
+/-! ## Exactness against the declarative grammar (`Garr/SpecParse/Grammar.lean`)
+
+`InGrammar pf s b` is a specification of the accepted language that does not mention the parser:
+`fixed=d`, `random=min:max`, `exponential=initial:max:multiplier`, each field empty (documented
+default 200 / 0:10000 / 200:10000:2.0) or a number in the constructor's domain.
+
+Totality is by construction: `parse` is a total function into `Option Backoff`, `none` standing
+for "returned a non-nil error"; there is no third outcome (no panic, no divergence) in the model.
+-/
+
+/-- C18, exactness: a specification parses to `b` iff it is in the grammar and denotes `b` -/
+theorem parse_iff_grammar (pf : Option F64) (s : Bytes) (b : Backoff) :
+    parse pf s = some b ↔ InGrammar pf s b :=
+  SpecParse.parse_iff_grammar pf s b
+
+/-- C18, "fails with an error for everything else" -/
+theorem parse_fails_otherwise (pf : Option F64) (s : Bytes) (h : ¬ ∃ b, InGrammar pf s b) :
+    parse pf s = none :=
+  SpecParse.parse_fails_otherwise pf s h
+
+/-- C18, success characterised: the parser succeeds iff the string is in the grammar -/
+theorem parse_succeeds_iff (pf : Option F64) (s : Bytes) :
+    (∃ b, parse pf s = some b) ↔ ∃ b, InGrammar pf s b :=
+  ⟨fun ⟨b, h⟩ => ⟨b, (SpecParse.parse_iff_grammar pf s b).1 h⟩,
+   fun ⟨b, h⟩ => ⟨b, (SpecParse.parse_iff_grammar pf s b).2 h⟩⟩
+
+/-- `strconv.ParseInt(f, 10, 64)` accepts exactly the decimal int64 literals -/
+theorem parseInt_iff (f : Bytes) (v : Int) : parseInt f = some v ↔ IsIntLit f v :=
+  SpecParse.parseInt_iff f v
+
+/-- a specification in the grammar is exactly what the corresponding constructor builds from the
+numbers the grammar names (strengthening of `parsed_eq_constructed`: the numbers are no longer
+existentially anonymous, they are the values denoted by the fields of `s`) -/
+theorem parsed_eq_constructed' (pf : Option F64) (s : Bytes) (b : Backoff) (h : InGrammar pf s b) :
+    (∃ f d, s = kFixed ++ [bEq] ++ f ∧ IntField f 200 d ∧
+        mkFixed d = some b ∧ b = .fixed d) ∨
+    (∃ f0 f1 lo hi, s = kRandom ++ [bEq] ++ f0 ++ [bColon] ++ f1 ∧
+        NoByte bColon f0 ∧ NoByte bColon f1 ∧ IntField f0 0 lo ∧ IntField f1 10000 hi ∧
+        mkRandom lo hi = some b ∧ b = .random lo hi) ∨
+    (∃ f0 f1 f2 i m mu, s = kExpo ++ [bEq] ++ f0 ++ [bColon] ++ f1 ++ [bColon] ++ f2 ∧
+        NoByte bColon f0 ∧ NoByte bColon f1 ∧ NoByte bColon f2 ∧
+        IntField f0 200 i ∧ IntField f1 10000 m ∧ FloatField pf f2 mu ∧
+        mkExpo i m mu = some b ∧ b = .expo i m mu) := by
+  cases h with
+  | fixed f d hf hd =>
+    exact Or.inl ⟨f, d, rfl, hf, (mkFixed_iff _ _).2 ⟨hd, rfl⟩, rfl⟩
+  | random f0 f1 lo hi c0 c1 h0 h1 g0 g1 =>
+    exact Or.inr (Or.inl ⟨f0, f1, lo, hi, rfl, c0, c1, h0, h1, (mkRandom_iff _ _ _).2 ⟨g0, g1, rfl⟩, rfl⟩)
+  | expo f0 f1 f2 i m mu c0 c1 c2 h0 h1 h2 g0 g1 g2 =>
+    exact Or.inr (Or.inr ⟨f0, f1, f2, i, m, mu, rfl, c0, c1, c2, h0, h1, h2,
+      (mkExpo_iff _ _ _ _).2 ⟨g0, g1, g2, rfl⟩, rfl⟩)
+
+/-- the same, stated on the parser: whatever parses is the constructor applied to the numbers
+denoted by the fields of the string -/
+theorem parsed_eq_constructed'' (pf : Option F64) (s : Bytes) (b : Backoff) (h : parse pf s = some b) :
+    (∃ f d, s = kFixed ++ [bEq] ++ f ∧ IntField f 200 d ∧ mkFixed d = some b) ∨
+    (∃ f0 f1 lo hi, s = kRandom ++ [bEq] ++ f0 ++ [bColon] ++ f1 ∧
+        IntField f0 0 lo ∧ IntField f1 10000 hi ∧ mkRandom lo hi = some b) ∨
+    (∃ f0 f1 f2 i m mu, s = kExpo ++ [bEq] ++ f0 ++ [bColon] ++ f1 ++ [bColon] ++ f2 ∧
+        IntField f0 200 i ∧ IntField f1 10000 m ∧ FloatField pf f2 mu ∧ mkExpo i m mu = some b) := by
+  rcases parsed_eq_constructed' pf s b ((SpecParse.parse_iff_grammar pf s b).1 h) with
+    ⟨f, d, e, hf, hm, -⟩ | ⟨f0, f1, lo, hi, e, -, -, h0, h1, hm, -⟩ |
+    ⟨f0, f1, f2, i, m, mu, e, -, -, -, h0, h1, h2, hm, -⟩
+  · exact Or.inl ⟨f, d, e, hf, hm⟩
+  · exact Or.inr (Or.inl ⟨f0, f1, lo, hi, e, h0, h1, hm⟩)
+  · exact Or.inr (Or.inr ⟨f0, f1, f2, i, m, mu, e, h0, h1, h2, hm⟩)
+
+/-- On a syntactically well-formed specification the parser IS the constructor (it returns the
+constructor's result, success or validation error, on the numbers denoted by the fields). -/
+theorem wellformed_eq_constructor (pf : Option F64) :
+    (∀ f d, IntField f 200 d → parse pf (kFixed ++ [bEq] ++ f) = mkFixed d) ∧
+    (∀ f0 f1 lo hi, NoByte bColon f0 → NoByte bColon f1 → IntField f0 0 lo → IntField f1 10000 hi →
+        parse pf (kRandom ++ [bEq] ++ f0 ++ [bColon] ++ f1) = mkRandom lo hi) ∧
+    (∀ f0 f1 f2 i m mu, NoByte bColon f0 → NoByte bColon f1 → NoByte bColon f2 →
+        IntField f0 200 i → IntField f1 10000 m → FloatField pf f2 mu →
+        parse pf (kExpo ++ [bEq] ++ f0 ++ [bColon] ++ f1 ++ [bColon] ++ f2) = mkExpo i m mu) :=
+  ⟨parse_fixed pf, parse_random pf, parse_expo pf⟩
+
+/-! ### Non-vacuity: concrete specifications (kernel-evaluated) -/
+
+/-- the UTF-8 bytes of a string literal -/
+def bs (s : String) : Bytes := s.toUTF8.toList.map (·.toNat)
+
+/-- 3.0 = 1.5·2¹ -/
+def three : F64 := .fin false (3 * 2^51) (-51)
+
+example : bs "fixed=123" = kFixed ++ [bEq] ++ [49, 50, 51] := by decide +kernel
+
+-- accepted
+example : parse none (bs "fixed=123") = some (.fixed 123) := by decide +kernel
+example : parse none (bs "random=:") = some (.random 0 10000) := by decide +kernel
+example : parse (some three) (bs "exponential=12::3") = some (.expo 12 10000 three) := by decide +kernel
+example : parse none (bs "fixed=+007") = some (.fixed 7) := by decide +kernel
+example : parse none (bs "fixed=-0") = some (.fixed 0) := by decide +kernel
+example : parse none (bs "fixed=9223372036854775807") = some (.fixed (2^63 - 1)) := by decide +kernel
+example : parse none (bs "random=5:") = some (.random 5 10000) := by decide +kernel
+example : parse none (bs "exponential=::") = some (.expo 200 10000 defaultMult) := by decide +kernel
+-- ... and the same facts as membership in the declarative grammar
+example : InGrammar none (bs "fixed=123") (.fixed 123) := by decide +kernel
+example : InGrammar none (bs "random=:") (.random 0 10000) := by decide +kernel
+example : InGrammar (some three) (bs "exponential=12::3") (.expo 12 10000 three) := by decide +kernel
+/-- a witness built by hand from the constructors of the grammar (no parser involved) -/
+example : InGrammar none (kFixed ++ [bEq] ++ [49, 50, 51]) (.fixed 123) :=
+  InGrammar.fixed [49, 50, 51] 123
+    (Or.inr (IsIntLit.unsigned [49, 50, 51] (by decide) (by decide) (by decide))) (by decide)
+
+-- rejected
+example : parse none (bs "fixed=-1") = none := by decide +kernel            -- constructor's domain
+example : parse none (bs "random=5:1") = none := by decide +kernel          -- min > max
+example : parse none (bs "fixed=1:2") = none := by decide +kernel           -- "1:2" is not a literal
+example : parse none (bs "Fixed=1") = none := by decide +kernel             -- keys are case-sensitive
+example : parse (some three) (bs "exponential=1:2") = none := by decide +kernel   -- two fields, not three
+example : parse none (bs "exponential=1:2:3") = none := by decide +kernel   -- ParseFloat error
+example : parse (some F64.one) (bs "exponential=1:2:1") = none := by decide +kernel  -- multiplier ≤ 1
+example : parse none (bs "fixed=9223372036854775808") = none := by decide +kernel  -- out of int64 range
+example : parse none (bs "fixed=-9223372036854775808") = none := by decide +kernel -- in range, negative
+example : parse none (bs "random=-9223372036854775808:") = none := by decide +kernel
+example : parse none (bs "fixed= 1") = none := by decide +kernel            -- no white space
+example : parse none (bs "fixed=1_0") = none := by decide +kernel           -- no underscores in base 10
+example : parse none (bs "fixed=0x10") = none := by decide +kernel
+example : parse none (bs "fixed=+") = none := by decide +kernel
+example : parse none (bs "fixed==1") = none := by decide +kernel            -- value "=1"
+example : parse none (bs "random=1:2:3") = none := by decide +kernel
+example : parse none (bs "random=1") = none := by decide +kernel
+example : parse none (bs "fixed") = none := by decide +kernel
+example : parse none (bs "") = none := by decide +kernel
+example : parse none (bs "=fixed") = none := by decide +kernel
+example : parse none (bs " fixed=1") = none := by decide +kernel
+example : ¬ ∃ b, InGrammar none (bs "fixed=-1") b := by
+  rintro ⟨b, h⟩
+  have := (SpecParse.parse_iff_grammar _ _ _).2 h
+  have e : parse none (bs "fixed=-1") = none := by decide +kernel
+  rw [e] at this
+  cases this
 
 end Garr.Props.C18
